@@ -55,7 +55,8 @@ class C09(E1Check):
                 "the model's live set at every quiescent point and sandwiched at every harness step; distinct = distinct traces")
 
     def bounds(self, tier: str) -> dict:
-        return {"spawns": 2 if tier == "quick" else 3, "deviation_bound": 0 if tier == "quick" else 1}
+        return {"spawns": 2 if tier == "quick" else 3,
+                "deviation_bound": 0 if tier == "quick" else "2 for one spawn, 1 for the quick tier's pairs, 0 for all other pairs and for triples"}
 
     def units(self, tier: str, seed: int) -> list:
         progs = []
@@ -111,14 +112,28 @@ class C09(E1Check):
         if tier == "thorough":
             for fctx in ("root", "nested"):
                 for handler in ("none", "true"):
-                    for combo in itertools.product([s for s in spawn_opts if s["place"] in ("F", "task") and s["body"] in ("ret", "raise", "forever")], repeat=3):
+                    opts3 = [s for s in spawn_opts if s["place"] in ("F", "task") and s["body"] in ("ret", "raise", "forever")]
+                    optsF = [s for s in opts3 if s["place"] == "F"]
+                    for combo in itertools.product(optsF, optsF, opts3):
                         if len({(c["how"], c["body"]) for c in combo}) < 2:
                             continue
                         progs.append({"fctx": fctx, "handler": handler, "spawns": list(combo)})
         return progs
 
+    _quick_set: Any = None
+
     def bound(self, tier: str, program: Any) -> int:
-        return 0 if tier == "quick" else (1 if len(program["spawns"]) <= 2 else 0)
+        if tier == "quick":
+            return 0
+        # thorough: singles with 2 preemptive injections, the quick tier's pairs with 1, every other pair and the triples with
+        # quiescent choices only (measured: bound 1 on all pairs costs ~19 core-hours)
+        if len(program["spawns"]) == 1:
+            return 2
+        if len(program["spawns"]) == 2:
+            if self._quick_set is None:
+                type(self)._quick_set = {repr(p) for p in self.units("quick", 0)}
+            return 1 if repr(program) in self._quick_set else 0
+        return 0
 
     def max_execs(self, tier: str, program: Any) -> int:
         return 2500 if tier == "quick" else 40000
@@ -456,7 +471,10 @@ class C09(E1Check):
         if stray:
             fail("handler", f"exception handler was called with {stray!r}, which no task raised")
         out = st.get("exc")
-        if program.get("block_raises") and (out is None or not any(isinstance(x, BlockError) for x in leaves(out))) and ("leaving",) in tr:
+        # (when the application is already going down because of an unswallowed task exception, the teardown of the owning context
+        # is itself cancelled and the teardown's exception group replaces the block's exception by design - C01 covers that rule;
+        # the property only demands that the TASK's exception comes out, which is checked below)
+        if program.get("block_raises") and not went_down and (out is None or not any(isinstance(x, BlockError) for x in leaves(out))) and ("leaving",) in tr:
             fail("swallowed", f"the block raised BlockError but the root block ended with {out!r}")
         if went_down:
             # every unswallowed exception whose task ended after the block had begun to leave must still come out
@@ -480,6 +498,11 @@ class C09(E1Check):
             if be is not None and be > ci and not any(ev[0] == "body!" and ev[1] == i and ev[2] == "CancelledError" for ev in tr) and spawns[i]["body"] == "forever":
                 fail("cancel", f"handle.cancel() of task {i} did not cancel it")
         for i in st.get("cancelled_early", set()):
+            # anyio delivers a cancellation issued before the task's first step on the loop iteration after the task first blocks, and
+            # not at all to a task whose wait has meanwhile completed: a gate opened by an INJECTED event inside that window lets the
+            # task finish on its own, which is a benign race (the task has ended), not a lost cancellation
+            if any(ev[:3] == ("env", "gate", f"body{i}") and j in env.injected for j, ev in enumerate(tr)):
+                continue
             if any(ev[:3] == ("env", "gate", f"body{i}") for ev in tr):
                 fail("cancel", f"task {i} was cancelled through its handle right after start_task_soon() but kept running until its gate was opened")
             if not any(ev[0] == "body!" and ev[1] == i and ev[2] == "CancelledError" for ev in tr) and any(ev[0] == "body+" and ev[1] == i for ev in tr):
